@@ -135,11 +135,15 @@ def monC04 (_g : Ghost) (o : Obs) : List String :=
 def monC05 (_g : Ghost) (o : Obs) : List String :=
   match o.op, o.cfg.maxMem with
   | .insertMem k v, some M =>
-    if !invB o.pre then [] else
     let total (s : St) := totalMem Val.size s.store
+    -- the BOUND needs less than full bookkeeping: every stored key has a queue slot and the queue is duplicate-free (orphan
+    -- slots allowed — the invariant sequential use keeps after concurrent use, C18.sync_then_sequential); a store that
+    -- completes with the total above max_memory is a violation there too (the loop must look past orphan slots)
+    let weak := (keys o.pre.store).all (fun x => o.pre.queue.contains x) && nodupB o.pre.queue && nodupB (keys o.pre.store)
+    let a := if total o.pre ≤ M && total o.post > M then [s!"total {total o.post} exceeds max_memory {M}"] else []
+    if !invB o.pre then (if weak then a else []) else
     let others := o.pre.store.filter (fun p => p.1 ≠ k)
     let othersTotal := totalMem Val.size others
-    let a := if total o.pre ≤ M && total o.post > M then [s!"total {total o.post} exceeds max_memory {M}"] else []
     if v.size > M then
       let keptOthers := o.post.store.filter (fun p => p.1 ≠ k)
       a ++ (if hasKey k o.post.store then [s!"oversize value ({v.size} > {M}) was cached"] else []) ++
